@@ -162,6 +162,12 @@ def run(ctx):
                     bad8.append("admission runs before the key's presence was tested (%s)" % p.show())
         ctx.check(not bad8, "R07.8", "%s|presence-test-before-admission" % name,
                   "on the worker the presence / readability test of the put's key precedes the admission decision (which may evict)", h.where(), "; ".join(sorted(set(bad8))[:2]))
+    # ---- R07.9 (= C12 R12.1) the verdict reaches the caller: `Rejected(KeyAlreadyExists)` decided by the worker is what the
+    # acknowledgement resolves to - the status is published before the completion flag, else an awaiting put can read the
+    # placeholder status instead of the rejection (or of `Accepted`)
+    for o in ctx.own_of("c12"):
+        if o["rule"] == "R12.1":
+            ctx._add(o["status"], "R07.9", o["key"].split("|", 1)[1], o["desc"], o["where"], o["detail"])
     # ---- R07.7 nothing is taken out of the store for a put before its key has been found not readable: a removal that
     # precedes the presence test must itself be conditioned on exactly "not alive" (the liveness predicate of R09.1), else an
     # entry that reads are still serving (e.g. at its expiry instant) is removed and the put is admitted over it
